@@ -128,11 +128,20 @@ def combined_obs(case):
         return Fake(m)
 
     comb = CombinedRegistry()
+    built = []
     for j, m in enumerate(case["members"]):
-        if j % 2:
-            comb << build(m)
+        if isinstance(m, dict) and "again" in m:
+            # the very same member object, which gained items since it was first added (a directory that received files)
+            reg = built[m["again"]]
+            for k, tag in m["extra"]:
+                reg._d[k] = Item(id=k, name=tag, entity=None, resistance="Kanamycin")
         else:
-            comb.add_registry(build(m))
+            reg = build(m)
+        built.append(reg)
+        if j % 2:
+            comb << reg
+        else:
+            comb.add_registry(reg)
     keys = list(comb)
     probes = {}
     for k in case["probes"]:
@@ -185,6 +194,23 @@ def copt(s):
     return "None" if s is None else "(Some %s)" % cs(s)
 
 
+def resolve_members(members):
+    """what each member holds when it is added: a re-added object holds its earlier items plus what it gained"""
+    out, state = [], {}
+    for j, m in enumerate(members):
+        if isinstance(m, dict) and "again" in m:
+            i = m["again"]
+            while isinstance(members[i], dict) and "again" in members[i]:
+                i = members[i]["again"]
+            state[i] = state[i] + [list(x) for x in m["extra"]]
+            out.append(list(state[i]))
+        else:
+            if isinstance(m, list):
+                state[j] = [list(x) for x in m]
+            out.append(m)
+    return out
+
+
 def gen_combined(ctx):
     rng = ctx.rng
     cases = []
@@ -193,7 +219,13 @@ def gen_combined(ctx):
         members = []
         for j in range(rng.randrange(0, 5)):
             if members and rng.random() < 0.2:
-                members.append(copy.deepcopy(rng.choice(members)))          # the same member again
+                members.append(copy.deepcopy(rng.choice(members)))          # an equal member again
+                continue
+            plain = [i for i, m in enumerate(members) if isinstance(m, list)]
+            if plain and rng.random() < 0.2:
+                i = rng.choice(plain)                                       # the same object again, after it grew
+                ks = rng.sample(pool, rng.randrange(0, 4))
+                members.append({"again": i, "extra": [[k, "m%d+:%s" % (j, k)] for k in ks if k not in [x[0] for x in members[i]]]})
                 continue
             if rng.random() < 0.25:
                 # a member that is itself a combined registry of 1-3 sub-members
@@ -297,8 +329,10 @@ def run(ctx):
     for c, o in zip(ccases, cobs):
         ctx.evaluations += 1
         ctx.count("combined:members=%d" % len(c["members"]))
-        if any(isinstance(m, dict) for m in c["members"]):
+        if any(isinstance(m, dict) and "nested" in m for m in c["members"]):
             ctx.count("combined:with-nested-combination")
+        if any(isinstance(m, dict) and "again" in m for m in c["members"]):
+            ctx.count("combined:same-object-re-added-after-growing")
         union = []
         first = {}
 
@@ -312,7 +346,8 @@ def run(ctx):
                             out.append((k, tag))
                 return out
             return [(k, tag) for k, tag in m]
-        for m in c["members"]:
+        resolved = resolve_members(c["members"])
+        for m in resolved:
             for k, tag in flat(m):
                 if k not in first:
                     first[k] = tag
@@ -336,7 +371,7 @@ def run(ctx):
             if isinstance(m, dict):
                 return "(combine String.eqb [%s])" % "; ".join(cm(x) for x in m["nested"])
             return "[" + "; ".join("(%s, %s)" % (cs(k), cs(t)) for k, t in m) + "]"
-        regs = "; ".join(cm(m) for m in c["members"])
+        regs = "; ".join(cm(m) for m in resolved)
         probes = "; ".join("(%s, %s)" % (cs(k), copt(p.get("name") if p.get("found") else None)) for k, p in o["probes"].items())
         terms.append("([%s], [%s], %d, [%s])" % (regs, "; ".join(cs(k) for k in o["iter"]), o["len"], probes))
     bad = common.coq_eval_cases(ctx, "comb", IMPORTS, terms, "check_comb", per_file=500)
